@@ -85,6 +85,8 @@ def cases(tier: str, seed: int) -> list[dict]:
     for kind, scheme, dim, et in CONFIGS:
         if kind in ("thermal", "elastic", "weakforms") and not (kind == "weakforms" and scheme == "static"):
             out.append({"kind": kind, "scheme": scheme, "dim": dim, "et": et, "nops": 2, "script": "steady-then-transient"})
+            if scheme != "static":
+                out.append({"kind": kind, "scheme": scheme, "dim": dim, "et": et, "nops": 2, "script": "transient-then-steady", "userdict": True})
     for i, c in enumerate(out):
         c["id"] = f"C15-{i:05d}-{c['kind']}-{c['scheme']}-{c['et']}"
         c["index"] = i
@@ -319,7 +321,7 @@ def _run(case, ctx, rng, kind, scheme, dim, et, key0, root):
     def op_save():
         if not dirty_since_save[0] and shadow and rng.random() < 0.5:
             op_step()
-        if case["index"] % 3 == 0:
+        if case["index"] % 3 == 0 and not case.get("userdict"):
             live.Save_Iter()
         else:
             # extra information of the caller, in a dict it keeps and updates from step to step
@@ -609,6 +611,11 @@ def _run(case, ctx, rng, kind, scheme, dim, et, key0, root):
                     # the initial state is stored as iteration 0 before anything is solved, and restored after load steps
                     script = [(op_save, None), (op_step, None), (op_save, None), (op_step, None), (op_save, None), (op_set_iter, 0), (op_step, None), (op_save, None),
                               (op_set_iter, 0), (op_get, 0), (op_result_iter, 0), (op_set_iter, 2)]
+                if case.get("script") == "transient-then-steady":
+                    # transient steps saved with the caller's info dict, then a steady state computed and saved with the SAME dict, then
+                    # the steady state restored while the transient scheme is in force again: its rates are zero
+                    script = [(op_save, None), (op_step, None), (op_save, None), (op_scheme, None), (op_set_iter, 0), (op_step, None), (op_save, None),
+                              (op_scheme, None), (op_set_iter, 2), (op_step, None), (op_save, None), (op_set_iter, 2), (op_get, 2)]
                 if case.get("script") == "steady-then-transient":
                     # a steady state saved under the stationary algorithm, transient steps saved after it, the steady state restored
                     # while the transient scheme is in force, and back
